@@ -6,6 +6,8 @@ import (
 
 // Run is the C16 workload.
 func Run(c *fw.Ctx) {
+	// directed: one witness per open finding, independent of seed and tier
+	c.Cases("directed", len(replay), runReplay)
 	// (a) closed-form estimators
 	c.Cases("closed.scalar", c.N(6000, 150000), func(cs *fw.Case) { runClosedScalar(cs, cs.R) })
 	c.Cases("closed.wrapper", c.N(2000, 50000), func(cs *fw.Case) { runClosedWrapper(cs, cs.R) })
